@@ -850,6 +850,11 @@ class Interp:
             new = base.replace(term=v.term, labels=base.labels | v.labels, has_const=False, const_=None, items=None)
             self.rebind(base, new, st)
             return
+        if base.kind == "arr" and base.shape is not None and len(base.shape) == 1 and v.kind == "arr" and v.shape == base.shape and idx.kind == "slice" and idx.items is not None and all(i_.kind == "none" for i_ in idx.items) and (base.extra in (None, "float") or base.extra == v.extra) and v.extra in (None, "float"):
+            # a[:] = v with v of the extent of a: every entry is overwritten
+            new = base.replace(term=v.term, labels=base.labels | v.labels, has_const=False, const_=None, items=None)
+            self.rebind(base, new, st)
+            return
         blk = self._block_store(base, idx, v)
         new = base.replace(term=blk if blk is not None else T("store", base.term, idx.term, v.term), labels=base.labels | v.labels | idx.labels, has_const=False, const_=None, items=None)
         self.rebind(base, new, st)
@@ -944,7 +949,8 @@ class Interp:
             new.view = view_idx  # the value stays a view of the same region after it was written through
 
         def other(x):
-            if view_of is not None and x.term == view_of:
+            if view_of is not None and (x.term == view_of or (isinstance(x.term, Term) and x.term.op == "head" and len(x.term.args) == 3 and x.term.args[1] == view_of)):
+                # (the rows handed out by zip / enumerate before the loop are views of the buffer as it is at the head)
                 return x.replace(term=T("store", x.term, old.term.args[1], new.term), has_const=False, const_=None, items=None)
             if view_of is None and view_idx is not None and getattr(x, "view", None) is None and x.shape is not None and old.shape is not None and len(x.shape) == len(old.shape):
                 # a second write through the same view: the region of the base it covers is overwritten again
